@@ -2,7 +2,8 @@ import Lean.Data.Json
 import PynguinModel.Model.ThreadGuard
 /-! Line-protocol driver for C32: one JSON case per line in, one JSON result per line out.
 
-Case: `{"n": <threads>, "evs": [{"tid": t, "op": <op>}…], "hist": [<HEv>…], "execs": [{"k": k, "tid": t}…]}`.
+Case: `{"n": <threads>, "evs": [{"tid": t, "op": <op>}…], "hist": [<HEv>…], "execs": [{"k": k, "tid": t}…],
+"fine": [<FEv>…]}` (`fine`: the history's tracer schedule with callbacks split into guard and write; `[]` for schedules).
 A schedule case has `hist = []`; a history case has `evs = []` and gives the whole history (tracer
 calls, `put`s of the test threads, `collect`s of the main thread) in `hist`; its tracer schedule is
 `callsOf hist`.
@@ -18,6 +19,8 @@ deriving instance FromJson for Op
 deriving instance FromJson for Ev
 
 deriving instance FromJson for HEv
+deriving instance FromJson for FOp
+deriving instance FromJson for FEv
 
 structure Exec where
   k : Nat
@@ -29,6 +32,10 @@ structure Case where
   evs : List Ev
   hist : List HEv
   execs : List Exec
+  /-- the tracer schedule of the history at the finer grain: callbacks as guard (`cbBegin`, where the
+  recorder saw the `check()`) and write (`cbEnd`, where the call returned; missing for a thread that is
+  stuck inside the call for ever) -/
+  fine : List FEv
   deriving FromJson
 
 def traceJ (t : Trace) : Json :=
@@ -93,7 +100,18 @@ def runCase (c : Case) : Json :=
     Json.mkObj [("k", toJson e.k), ("tid", toJson e.tid), ("result", resJ res),
       ("collected", toJson (results.lookup e.k).isSome),
       ("raised", toJson (raisedBy e.tid s0 evs)), ("form", shape)]
-  Json.mkObj [("raised", toJson (runLog s0 evs)),
+  -- the fine-grained replay (no lock = the code): runs to its end, and ends in the same tracer state as
+  -- the coarse schedule in which every completed callback sits where its guard was passed
+  let fineJ : Json := match frun .none (F.init s0) c.fine with
+    | some f =>
+      Json.mkObj [("ran", true),
+        ("sameAsCoarse", toJson (decide (f.tr.current = fin.current ∧ f.tr.imp = fin.imp
+          ∧ (List.range c.n).all fun t => decide (f.tr.loc t = fin.loc t)))),
+        ("raised", toJson (frunLog .none (F.init s0) c.fine)),
+        ("inside", toJson ((List.range c.n).filter fun t => f.inside t)),
+        ("lockBlocks", toJson (frun .updateLock (F.init s0) c.fine).isNone)]
+    | none => Json.mkObj [("ran", false)]
+  Json.mkObj [("raised", toJson (runLog s0 evs)), ("fine", fineJ),
     ("current", match fin.current with | some t => toJson t | none => Json.null),
     ("imp", traceJ fin.imp), ("locals", Json.arr locals.toArray), ("execs", Json.arr execs.toArray),
     ("sharedDiffers", toJson (decide (shared ≠ results)))]
